@@ -117,6 +117,12 @@ func (c *Conn) serverHandshake(ctx context.Context) error {
 				return err
 			}
 
+			// cookie 校验通过之前每个数据报只应答一次：丢弃该数据报中尚未处理的握手数据。
+			// 否则同一条记录里打包的 N 个无 cookie ClientHello 会换来 N 个 HelloVerifyRequest，
+			// 响应总字节数超过请求（2 个最小 ClientHello 共 115 字节 → 2×60 字节）。
+			c.handBuf.Reset()
+			c.rawInputBuf = nil
+
 			// 读取下一个 ClientHello（含 cookie），带超时重传处理
 			clientHello, err = c.readNextClientHello(ctx)
 			if err != nil {
